@@ -65,3 +65,22 @@ Proof.
   unfold parse_account_json. apply no_panic_bind; [apply json_unmarshal_string_total|].
   intros a. apply parse_account_total.
 Qed.
+
+(** * a text without a colon whose base64 content is not exactly 36 bytes --
+      a user-friendly address with bytes appended, or a shortened one -- is an
+      error for ParseAccountID, hence for AccountID.UnmarshalJSON *)
+Lemma addr_len_is_length {A} n : forall l : list A, Address.len_is n l = true -> length l = n.
+Proof.
+  induction n as [|n IH]; intros [|a l] H; cbn [Address.len_is] in H; try discriminate; [reflexivity|].
+  cbn [length]. f_equal. apply IH. exact H.
+Qed.
+
+Theorem parse_account_wrong_length s bs :
+  Address.split_colon s = None ->
+  Address.b64url_decode_string (map Address.plus_slash s) = Some bs -> length bs <> 36%nat ->
+  Address.parse_account s = Err EOther.
+Proof.
+  intros Hc Hb Hl. unfold Address.parse_account, Address.parse_raw. rewrite Hc.
+  unfold Address.parse_human. rewrite Hb. unfold Address.parse_human_bytes.
+  destruct (Address.len_is 36 bs) eqn:E; [apply addr_len_is_length in E; contradiction|reflexivity].
+Qed.
